@@ -183,6 +183,7 @@ class Run:
             "discharged": n_dis,
             "failed": n_fail,
             "undecided": n_und,
+            "statement_contract_obligations_not_fitting": len(self.misfits),
             "checker_cmd": checker_cmd or f"./check {self.prop_id} --tier {self.tier}",
             "trusted_base": self._trusted(),
             "evaluations": max(self.configs, 1) if self.configs else max(n_ob, 1),
@@ -238,7 +239,7 @@ class Run:
             print(f"NOTE: the statement-level contract of {f_} does not fit this tree (shape differs): not proved for all configurations here; "
                   f"the per-configuration clauses decide")
         print(f"[{self.prop_id}] tier={self.tier} obligations={n_ob} discharged={n_dis} failed={n_fail} "
-              f"undecided={n_und} configs={self.configs} canaries={self.canaries_ok}/{self.canaries_total} "
+              f"undecided={n_und}{f' not-fitting={len(self.misfits)}' if self.misfits else ''} configs={self.configs} canaries={self.canaries_ok}/{self.canaries_total} "
               f"wall={wall:.1f}s")
         if self.violations:
             per_clause = {}
